@@ -4,13 +4,17 @@ import json
 from check import Result
 
 PROP = "C11"
-TARGETS = ["NetqasmVerif.Props.C11"]
+TARGETS = ["NetqasmVerif.Props.C11", "NetqasmVerif.Props.QlinkObligations"]
 M = "NetqasmVerif.Props.C11"
 THEOREMS = [(M, "NQ.C11." + n) for n in [
     "tables_wellformed", "ser_create_matches_fields", "handles_match_fields", "qlink_enum_fields_typed",
     "request_roundtrip", "named_bases_in_range", "result_handles_keep", "result_handles_measure",
-    "result_handles_ent_info", "result_handles_ent_info_nv"]]
-TRANSLATORS = ["epr_tables"]
+    "result_handles_ent_info", "result_handles_ent_info_nv", "request_ids_exact", "queue_key_determines_socket"]]
+MQ = "NetqasmVerif.Props.QlinkObligations"
+THEOREMS += [(MQ, "NQ.Qlink." + n) for n in [
+    "response_conversion_copies_every_field", "basis_conversion_exact", "bell_state_verbatim",
+    "bell_numberings_differ", "request_conversion_copies_every_field"]]
+TRANSLATORS = ["epr_tables", "qlink_tables"]
 LEVEL_TEXT = ('Lean theorems: request_roundtrip — for every request type K/M/R, pair count, time unit/limit, '
               'rotation triple, random-basis set (any RandomBasis member or none), socket and node id, the '
               'LinkLayerCreate the executor builds from the argument array the SDK wrote equals the expected '
@@ -35,6 +39,13 @@ TRUSTED = [
     "harness/epr.py: InProcConnection decodes the serialized host messages and drives the executor in-process",
 ]
 ASSUMPTIONS = [
+    "the network stack assigns purpose ids as a function of (remote node id, local socket id); the harness stack "
+    "uses remote*1000+socket (injective per remote); scenarios use equal and different local socket ids "
+    "towards two remote nodes",
+    "responses are delivered natively and in qlink-interface 1.0 form (converted by the real "
+    "response_from_qlink_1_0); the Bell-state field is transported verbatim — qlink_interface.BellState and "
+    "qlink_compat.BellState number the states differently (observation bell_numberings_differ): which "
+    "numbering the int index means is the link layer's contract (ResCreate.bell_state: int, 'TODO add mapping')",
     "which returned Qubit holds which pair is established per run: every scripted response carries a distinct "
     "physical qubit id, followed through mov (NV: communication -> memory qubit) and through the order of "
     "measurements (sequential requests); with the NV transpiler (mov expanded into gates) the assignment of "
@@ -60,7 +71,7 @@ MEAS_SPEC = {"raw_measurement_outcome": "measurement_outcome", "remote_node_id":
 
 
 def _resp_field(r, name):
-    real = r.real()
+    real = r.native()
     v = getattr(real, name)
     return v.value if hasattr(v, "value") else v
 
@@ -182,6 +193,8 @@ def run(ctx):
     for c in hw_cases:
         res.evaluations += 1
         _check_hw(ctx, res, H, c)
+    # ---- the qlink-interface 1.0 compatibility layer, field by field, on random objects
+    _check_qlink_layer(ctx, res, H, rng, 1500 if ctx.thorough else 300)
     # ---- direct streams: serialize_request and _get_create_request on wider / malformed inputs
     nd = 4000 if ctx.thorough else 800
     ex = H.fresh_world()
@@ -191,14 +204,15 @@ def run(ctx):
     for _ in range(nd):
         res.evaluations += 1
         tp = rng.randrange(3)
-        p = {"tp": tp, "remote": rng.randrange(5), "purpose": rng.randrange(5),
+        rem, sockid = rng.randrange(5), rng.randrange(5)
+        p = {"tp": tp, "remote": rem, "purpose": H.purpose_of(rem, sockid),
              "number": rng.choice([0, 1, 2, 255, rng.randrange(1 << 16)]), "timeUnit": rng.randrange(3),
              "maxTime": rng.choice([0, 1, rng.randrange(1 << 20)]),
              "rbl": rng.choice([None, None, 0, 1, 2, 3]), "rbr": rng.choice([None, None, 0, 1, 2, 3]),
              "rotL": rng.choice([[0, 0, 0], [rng.randrange(32) for _ in range(3)], [0, 0, 31], [255, 1, 0]]),
              "rotR": rng.choice([[0, 0, 0], [rng.randrange(32) for _ in range(3)]])}
         params = H.BE.EntRequestParams(
-            remote_node_id=p["remote"], epr_socket_id=p["purpose"], number=p["number"], post_routine=None,
+            remote_node_id=p["remote"], epr_socket_id=sockid, number=p["number"], post_routine=None,
             sequential=False, time_unit=H.TimeUnit(p["timeUnit"]), max_time=p["maxTime"],
             random_basis_local=None if p["rbl"] is None else H.RandomBasis(p["rbl"]),
             random_basis_remote=None if p["rbr"] is None else H.RandomBasis(p["rbr"]),
@@ -219,7 +233,7 @@ def run(ctx):
             arr = arr[:-1]
         ex._app_arrays[0]._arrays[7] = arr
         try:
-            req = ex._get_create_request(subroutine_id=0, remote_node_id=p["remote"], epr_socket_id=p["purpose"],
+            req = ex._get_create_request(subroutine_id=0, remote_node_id=p["remote"], epr_socket_id=sockid,
                                          arg_array_address=7)
             real = H.canon_request(req)
         except Exception:
@@ -231,6 +245,92 @@ def run(ctx):
         if real is not None:
             res.nontrivial.add(json.dumps({"p": p, "arr": arr}, sort_keys=True))
     return res
+
+
+REQ_RENAME = {"x_rotation_angle_local_1": "rotation_X_local1", "y_rotation_angle_local": "rotation_Y_local",
+              "x_rotation_angle_local_2": "rotation_X_local2", "x_rotation_angle_remote_1": "rotation_X_remote1",
+              "y_rotation_angle_remote": "rotation_Y_remote", "x_rotation_angle_remote_2": "rotation_X_remote2",
+              "probability_distribution_parameter_local_1": "probability_dist_local1",
+              "probability_distribution_parameter_local_2": "probability_dist_local2",
+              "probability_distribution_parameter_remote_1": "probability_dist_remote1",
+              "probability_distribution_parameter_remote_2": "probability_dist_remote2"}
+
+
+def _val(v):
+    return v.value if hasattr(v, "value") and not isinstance(v, (int, float)) else v
+
+
+def _check_qlink_layer(ctx, res, H, rng, n):
+    import dataclasses
+
+    import qlink_interface as q10
+
+    from netqasm import qlink_compat as ql
+    for _ in range(n):
+        res.evaluations += 1
+        # responses: K / M / R x both directions x Bell states (int index or qlink_interface member)
+        kind = rng.choice(["K", "M", "R"])
+        bell = rng.randrange(4)
+        common_kw = dict(create_id=rng.randrange(1 << 16), directionality_flag=rng.randrange(2),
+                         sequence_number=rng.randrange(1 << 16), purpose_id=rng.randrange(5000),
+                         remote_node_id=rng.randrange(8), goodness=rng.randrange(1 << 20),
+                         bell_state=q10.BellState(bell) if rng.random() < 0.5 else bell)
+        if kind == "K":
+            src = q10.ResCreateAndKeep(logical_qubit_id=rng.randrange(64), time_of_goodness=rng.randrange(1 << 20),
+                                       **common_kw)
+        else:
+            cls = q10.ResMeasureDirectly if kind == "M" else q10.ResRemoteStatePrep
+            src = cls(measurement_outcome=rng.randrange(2), measurement_basis=q10.MeasurementBasis(rng.randrange(5)),
+                      **common_kw)
+        res.count("qlink-response:" + kind)
+        inp = {"qlink_response": [type(src).__name__, {k: _val(v) for k, v in dataclasses.asdict(src).items()}]}
+        try:
+            out = ql.response_from_qlink_1_0(src)
+        except ValueError:
+            out = None
+        if kind == "R":
+            if out is not None:
+                res.count("qlink-R-converted")
+            continue
+        if out is None:
+            res.failures.append({"what": "response_from_qlink_1_0 rejects a %s response" % kind, "kf": None, "input": inp})
+            continue
+        res.nontrivial.add(json.dumps(inp, sort_keys=True))
+        for f, v in zip(out._fields, out):
+            if f == "type":
+                want = 0 if kind == "K" else 1
+            else:
+                want = _val(getattr(src, "time_of_goodness" if f == "goodness_time" else f))
+            if _val(v) != want:
+                res.failures.append({"what": "1.0-form response: field %s is %s after conversion, the link "
+                                             "layer sent %s" % (f, _val(v), want), "kf": None, "input": inp})
+                break
+        # requests
+        tp = rng.choice([ql.RequestType.K, ql.RequestType.M])
+        kw = {}
+        for f in ql.LinkLayerCreate._fields:
+            if f == "type":
+                kw[f] = tp
+            elif f.startswith("random_basis"):
+                kw[f] = ql.RandomBasis(rng.randrange(4))
+            else:
+                kw[f] = rng.randrange(1 << 10)
+        req = ql.LinkLayerCreate(**kw)
+        inp = {"qlink_request": H.canon_request(req)}
+        try:
+            o = ql.request_to_qlink_1_0(req)
+        except Exception as e:
+            res.failures.append({"what": "request_to_qlink_1_0 raised %s: %s" % (type(e).__name__, e), "kf": None,
+                                 "input": inp})
+            continue
+        res.count("qlink-request:" + tp.name)
+        for fld in dataclasses.fields(o):
+            got = _val(getattr(o, fld.name))
+            want = _val(getattr(req, REQ_RENAME.get(fld.name, fld.name)))
+            if got != want:
+                res.failures.append({"what": "1.0-form request: field %s is %s, the request has %s"
+                                             % (fld.name, got, want), "kf": None, "input": inp})
+                break
 
 
 def _check_hw(ctx, res, H, c):
@@ -303,6 +403,14 @@ def replay(ctx, payload):
     from harness import epr as H
     H.quiet()
     inp = (payload.get("failure") or {}).get("input") or {}
+    if "qlink_response" in inp or "qlink_request" in inp:
+        print("re-run of the compatibility-layer stream (the failing object is in the replay file):",
+              json.dumps(inp)[:600])
+        res = Result()
+        _check_qlink_layer(ctx, res, H, ctx.rng, 300)
+        for f in res.failures[:3]:
+            print("FAIL:", f["what"])
+        return 1 if res.failures else 0
     if "hw_case" in inp:
         res = Result()
         out = _check_hw(ctx, res, H, inp["hw_case"])
